@@ -2,8 +2,9 @@
 """tools/seedkeep.py <ID> <n> <caught-by signatures / note>  — archive a confirmed seeded change under /verif/seeded/<ID>-<n>/"""
 import json, os, shutil, sys
 pid, n, note = sys.argv[1], sys.argv[2], sys.argv[3]
+as_n = os.environ.get("AS", n)  # AS=<k>: archive change <n> as <ID>-<k> (later rounds)
 src = "/tmp/seed-%s-out" % pid
-dst = "/verif/seeded/%s-%s" % (pid, n)
+dst = "/verif/seeded/%s-%s" % (pid, as_n)
 os.makedirs(dst, exist_ok=True)
 shutil.copy("%s/change%s.diff" % (src, n), dst + "/patch.diff")
 for cand in ("demo%s_test.go" % n,):
